@@ -264,7 +264,7 @@ def c_isolate(h):
     h.frame_ok(out, "C13.frame")
 
 
-@contract("PolyhedralTerm.accessors", ["C04", "C06"], [PT + "get_coefficient", PT + "contains_var", PT + "vars", PT + "get_polarity", PT + "get_sign"], "S", bound=BOUND)
+@contract("PolyhedralTerm.accessors", ["C04"], [PT + "get_coefficient", PT + "contains_var", PT + "vars", PT + "get_polarity", PT + "get_sign"], "S", bound=BOUND)
 def c_accessors(h):
     s = S(h)
     a = s.term("a", V3)
